@@ -629,6 +629,20 @@ class Interp(object):
                     return (a.value is None) == pos
                 if isinstance(a, (Str, Num, Tup, ListVal, EqObj)):
                     return not pos
+                if isinstance(a, Phi) and isinstance(a.guard, Guard):
+                    # a value that is None on exactly one outcome of an earlier test: the None test is that test
+                    def none_ness(v_):
+                        if isinstance(v_, Const):
+                            return v_.value is None
+                        if isinstance(v_, (Str, Num, Tup, ListVal, EqObj)):
+                            return False
+                        return None
+                    na, nb = none_ness(a.a), none_ness(a.b)
+                    if na is not None and nb is not None:
+                        if na == nb:
+                            return na == pos
+                        g = a.guard if na else a.guard.neg()
+                        return g if pos else g.neg()
                 g = Guard(Cond('isnone', self.as_key(a)))
                 return g if pos else g.neg()
             if isinstance(a, Str) and isinstance(b, Str):
